@@ -67,7 +67,14 @@ make_randomable!(isize, usize);
 impl Randomable<f64> for Range<f64> {
     fn gen_from_u64(self, rng: u64) -> f64 {
         assert!(!self.is_empty());
-        let len = self.end - self.start;
-        (rng as f64 / u64::MAX as f64) * len + self.start
+        // 53 random bits give x in [0; 1), the interpolation doesn't overflow for finite bounds
+        let x = (rng >> 11) as f64 / (1u64 << 53) as f64;
+        let res = self.start * (1.0 - x) + self.end * x;
+        // rounding can still produce a value outside of the half-open range
+        if res >= self.start && res < self.end {
+            res
+        } else {
+            self.start
+        }
     }
 }
